@@ -81,6 +81,9 @@ def classify(res, linemap, fname):
         for s in spans:
             if (s.get("label") or "").startswith("failed this postcondition"):
                 target = s
+            # an invariant that fails at a `break` / loop exit: the primary span is the exit, the clause is the labelled span
+            if (s.get("label") or "").startswith("failed this invariant"):
+                target = s
         if target is None:
             target = prim[0]
         ln = target["line_start"]
